@@ -697,8 +697,8 @@ SAME_MEANING = {
     ('literal_init', 0): [['1', '+1']],
 }
 DISTINCT_TEMPLATES = {
-    'sfc_action_qualifiers': ['FUNCTION_BLOCK fb\nVAR\n  done : BOOL;\nEND_VAR\nINITIAL_STEP Start:\n  act(', ('alt', ['N', 'R', 'S', 'P', 'P0', 'P1', 'L, T#1s', 'D, T#1s', 'SD, T#1s', 'DS, T#1s', 'SL, T#1s', 'L, T#2s', 'N, done', 'DS, T#1s, done']),
-                              ');\nEND_STEP\nSTEP Work:\nEND_STEP\nTRANSITION FROM Start TO Work\n  := done;\nEND_TRANSITION\nACTION act:\n  done := TRUE;\nEND_ACTION\nEND_FUNCTION_BLOCK\n'],
+    'sfc_action_qualifiers': ['FUNCTION_BLOCK fb\nVAR\n  done : BOOL;\n  tv : TIME;\nEND_VAR\nINITIAL_STEP Start:\nEND_STEP\nSTEP Work:\n  act(', ('alt', ['N', 'R', 'S', 'P', 'L', 'D', 'SD, T#1s', 'DS, T#1s', 'SL, T#1s', 'P1, T#1s', 'P0, T#1s', 'SD, T#2s', 'SD, tv', 'DS, tv', 'SL, tv', 'N, done', 'DS, T#1s, done', 'SD, T#1s, done']),
+                              ');\nEND_STEP\nTRANSITION FROM Start TO Work\n  := done;\nEND_TRANSITION\nACTION act:\n  done := TRUE;\nEND_ACTION\nEND_FUNCTION_BLOCK\n'],
     'var_sections': ['FUNCTION_BLOCK fb\n', ('alt', ['VAR', 'VAR_INPUT', 'VAR_OUTPUT', 'VAR_IN_OUT', 'VAR_EXTERNAL', 'VAR_TEMP']), ('alt', ['', ' RETAIN', ' CONSTANT', ' NON_RETAIN']), '\n  x : ', ('alt', ['INT', 'DINT', 'BOOL', 'REAL', 'TIME', 'mytype']), ('alt', ['', ' := 1', ' := 2']), ';\nEND_VAR\nEND_FUNCTION_BLOCK\n'],
     'type_kinds': ['TYPE\n  t : ', ('alt', ['INT', 'INT := 1', 'INT(1..2)', 'INT(1..3)', 'INT(2..3)', '(a, b)', '(a, c)', '(b, a)', '(a, b) := a', '(a, b) := b', 'ARRAY[1..2] OF INT', 'ARRAY[1..3] OF INT', 'ARRAY[1..2, 1..2] OF INT', 'ARRAY[1..2] OF BOOL',
                                            'STRING', 'WSTRING', 'STRING[5]', 'STRING[6]', 'other', 'STRUCT\n    m : INT;\n  END_STRUCT', 'STRUCT\n    m : BOOL;\n  END_STRUCT', 'STRUCT\n    n : INT;\n  END_STRUCT', 'STRUCT\n    m : INT;\n    n : INT;\n  END_STRUCT']), ';\nEND_TYPE\n'],
